@@ -21,7 +21,7 @@ MUL_FUNCS = ['add_mul', 'add_mul_karatsuba', 'add_mul_karatsuba_with_efficient_s
              'add_mul_wallace', 'add_mul_pow2_m1']
 REQUIRED = {('mon:%s.checked' % f): 8 for f in MUL_FUNCS + ['generate_mul', 'generate_square', 'add_square', 'add_square_pow2_m1']}
 REQUIRED.update({'reach:karatsuba_recursive': 2, 'reach:square_split': 1, 'endian:big': 20, 'host:internal': 10,
-                 'unequal_widths': 20, 'width_one': 10})
+                 'unequal_widths': 20, 'width_one': 10, 'skewed_shapes': 30})
 for _m in ('DEFAULT', 'KARATSUBA', 'ALTER', 'DADDA', 'WALLACE', 'POW2_M1'):
     REQUIRED['mulmode:' + _m] = 8
 
@@ -45,6 +45,8 @@ def shards(tier, seed):
         out.append({'kind': 'targeted', 'items': [['add_mul_karatsuba', 36, 36, True]], 'budget_s': budget})
         out.append({'kind': 'targeted', 'items': [['square', 54, None, True]], 'budget_s': budget})
         out.append({'kind': 'targeted', 'items': [['DADDA', 9, 12, False], ['WALLACE', 11, 7, True], ['ALTER', 10, 10, False]], 'budget_s': budget})
+        for p in range(3):
+            out.append({'kind': 'skewed', 'narrow': [2, 3], 'wide': [11, 13, 30], 'part': p, 'parts': 3, 'budget_s': budget})
         out.append({'kind': 'targeted', 'items': [['DEFAULT', 12, 9, True], ['POW2_M1', 15, 15, False], ['square_pow2', 17, None, True]], 'budget_s': budget})
     else:
         for p in range(12):
@@ -68,6 +70,9 @@ def shards(tier, seed):
             items.append(['square_pow2', n, None, False])
         for i in range(0, len(items), 2):
             out.append({'kind': 'targeted', 'items': items[i:i + 2], 'budget_s': budget})
+        for p in range(12):
+            out.append({'kind': 'skewed', 'narrow': [1, 2, 3, 4, 5], 'wide': [8, 9, 10, 11, 12, 13, 16, 17, 20, 24, 30, 33],
+                        'part': p, 'parts': 12, 'budget_s': budget})
     return out
 
 
@@ -213,6 +218,20 @@ def run_shard(spec, ctx):
             for what in ('square', 'square_pow2'):
                 run_item([what, n, None, n % 2 == 0], ctx)
         ctx.info['small_space_parts'] = 1
+    elif spec['kind'] == 'skewed':
+        # skinny / skewed shapes, systematically: one narrow and one wide operand, every mode (both operand orders)
+        grid = [(w, nr, wd, o) for w in ['DEFAULT', 'KARATSUBA', 'ALTER', 'DADDA', 'WALLACE', 'POW2_M1']
+                for nr in spec['narrow'] for wd in spec['wide'] for o in (0, 1)]
+        for k, (what, narrow, wide, o) in enumerate(grid):
+            if k % spec['parts'] != spec['part']:
+                continue
+            if ctx.out_of_time():
+                ctx.count('stopped_on_budget')
+                ctx.note_inconclusive('skewed-shape grid not finished within the budget')
+                break
+            n, m = (narrow, wide) if o == 0 else (wide, narrow)
+            ctx.count('skewed_shapes')
+            run_item([what, n, m, (k % 3) == 0], ctx)
     elif spec['kind'] == 'targeted':
         for item in spec['items']:
             if ctx.out_of_time():
@@ -230,13 +249,19 @@ def run_shard(spec, ctx):
             if rng.random() < 0.25:
                 what = rng.choice(['add_square', 'add_square_pow2_m1'])
                 n = rng.randint(1, spec['maxw'])
-                hc = {'host': netgen.describe(host), 'mode': mode, 'operands': [A.pick_bits(rng, host, n, mode)]}
+                ops = [A.pick_bits(rng, host, n, mode)]
+                if rng.random() < 0.5:
+                    host = A.add_operand_users(host, ops, rng)
+                hc = {'host': netgen.describe(host), 'mode': mode, 'operands': ops}
                 run_item([what, n, None, rng.random() < 0.4], ctx, hc)
             else:
                 what = rng.choice(MUL_FUNCS)
                 n, m = rng.randint(1, spec['maxw']), rng.randint(1, spec['maxw'])
-                hc = {'host': netgen.describe(host), 'mode': mode,
-                      'operands': [A.pick_bits(rng, host, n, mode), A.pick_bits(rng, host, m, mode)]}
+                ops = [A.pick_bits(rng, host, n, mode), A.pick_bits(rng, host, m, mode)]
+                if rng.random() < 0.6:
+                    host = A.add_operand_users(host, ops, rng)
+                    ctx.count('host_with_operand_users')
+                hc = {'host': netgen.describe(host), 'mode': mode, 'operands': ops}
                 run_item([what, n, m, rng.random() < 0.4], ctx, hc)
 
 
